@@ -172,6 +172,9 @@ func checkC18(c c18Case, rec *Rec) *Violation {
 	if hash64(line)%7 < 3 {
 		text = strings.ReplaceAll(text, "\n", "\r\n") // the same lines with CR LF endings
 	}
+	if hash64(line)%5 == 1 {
+		text = "\xef\xbb\xbf! Title: hosts\n" + text // a list that starts with a byte-order mark
+	}
 	// the list id varies with the line; 0 makes the storage index of the first line 0
 	// (cosmetic rules are ignored for some lists: hosts lines are not cosmetic rules)
 	st, err := filterlist.NewRuleStorage([]filterlist.RuleList{&filterlist.StringRuleList{ID: []int{0, 3, -1}[hash64(line)%3], RulesText: text, IgnoreCosmetic: hash64(line)%5 < 2}})
@@ -245,6 +248,18 @@ func checkC18(c c18Case, rec *Rec) *Violation {
 				fcleanup()
 				return viol(id, c18Sig(c, "C18:engine-differs:file-backed-last-line"), "file-backed list ending in the unterminated line %q: DNSEngine.Match(%q) does not return the line", line, nm)
 			}
+		}
+		// the first line once more, after the others have been read: still the same rule, text and all
+		res, _ := fd.Match("other.example")
+		okAgain := false
+		for _, x := range res.HostRulesV4 {
+			if x.Text() == other && inList("other.example", x.Hostnames) {
+				okAgain = true
+			}
+		}
+		if !okAgain {
+			fcleanup()
+			return viol(id, c18Sig(c, "C18:engine-differs:file-backed-asked-again"), "file-backed list: DNSEngine.Match(other.example) asked again after the other lines returns %q, want the line %q", hostTexts(res.HostRulesV4), other)
 		}
 		fcleanup()
 	}
